@@ -21,17 +21,56 @@ def cases(tier, seed):
         rng = scenario.rng_for(seed, "C05", i)
         scn = scenario.gen_scenario(rng, fams=FAMS, max_iters=400 if tier == "quick" else 3000, refine=bool(rng.random() < 0.7))
         scn["iters"] = int(rng.choice([10, 20, 40, 100, 200, 400] if tier == "quick" else [10, 20, 40, 100, 400, 1000, 3000]))
-        if rng.random() < 0.3:
+        u = rng.random()
+        if u < 0.25:
             scn["pattern"] = [["iter", int(rng.integers(1, 10))], ["solve"]]
+        elif u < 0.5:
+            # multi-step use of the public API: refinement, further global iterations, refinement again
+            scn["obj"] = scenario.gen_objective(rng, scn["N"], ["sines", "cones", "wells", "needle", "sines"])
+            k1, k2 = int(rng.integers(3, 40)), int(rng.integers(5, 80))
+            pats = [[["solve"], ["iter", k2], ["solve"]],
+                    [["iter", k1], ["local", int(rng.integers(2, 30))], ["iter", k2], ["local", int(rng.integers(2, 30))]],
+                    [["iter", k1], ["local", 5], ["iter", k2], ["solve"]],
+                    [["solve"], ["local", int(rng.integers(1, 20))], ["iter", k2], ["local", 10], ["iter", 7], ["solve"]]]
+            scn["pattern"] = pats[int(rng.integers(len(pats)))]
+            scn["multi"] = True
         out.append(scn)
     return out
 
 
 def run_case(scn):
-    t = record.run_solver(scn, listener=False)
+    stepviol = []
+    stepobs = {"refinement_steps": 0}
+    holder = {}
+
+    def after_step(n, step):
+        # after every refinement (explicit DoLocalRefinement, or Solve with refineSolution): the reported point is in the box,
+        # its value is the objective there and is not worse than the best global-phase trial made so far
+        prob = holder["prob"]
+        refined = step[0] == "local" or (step[0] == "solve" and scn["refine"])
+        if not refined:
+            return
+        stepobs["refinement_steps"] += 1
+        sn = record.snap_solution(prob.solver.GetResults())
+        g = [float(e["v"]) for e in prob.log if e["ph"] == "g" and e["v"] is not None]
+        if sn["y"] is None or not g:
+            return
+        if not record.inside_box(sn["y"], scn["lower"], scn["upper"]):
+            stepviol.append({"mech": "result-outside-box", "after_step": [n, step], "point": sn["y"].tolist()})
+        if not record.same_value(prob.f(sn["y"]), sn["v"]):
+            stepviol.append({"mech": "result-value-not-objective-at-point", "after_step": [n, step], "reported": float(sn["v"]), "recomputed": float(prob.f(sn["y"]))})
+        if float(sn["v"]) > min(g):
+            stepviol.append({"mech": "refinement-worsened", "after_step": [n, step], "reported": float(sn["v"]), "best_global": min(g),
+                             "pattern": scn.get("pattern")})
+        if n > 0 and any(s[0] == "iter" for s in scn.get("pattern", [])[:n]) and stepobs["refinement_steps"] >= 2:
+            stepobs["second_refinements_after_more_trials"] = stepobs.get("second_refinements_after_more_trials", 0) + 1
+
+    prob, info = record.make_problem(scn, cap=scn["iters"] + sum(s[1] for s in scn.get("pattern", []) if s[0] == "iter") + 8)
+    holder["prob"] = prob
+    t = record.run_solver(scn, listener=False, problem=prob, after_step=after_step)
     if t.fp_exhausted:
         return {"violations": [], "obs": {"fp_domain_exhausted": 1}, "skip": "fp-domain-exhausted"}
-    viol = []
+    viol = list(stepviol[:4])
     lo, hi = scn["lower"], scn["upper"]
     if t.swallowed or t.aborted:
         viol.append({"mech": "solve-internal-exception", "stdout": t.stdout[-300:]})
@@ -46,6 +85,8 @@ def run_case(scn):
     llog = [e for e in t.log if e["ph"] == "l"]
     fin = t.final
     obs = {"runs": 1, "global_evals": len(glog), "local_evals": len(llog), "refine_runs": int(bool(scn["refine"]))}
+    obs.update(stepobs)
+    refined_any = bool(llog)
     if fin["y"] is None:
         viol.append({"mech": "no-result"})
     else:
@@ -58,7 +99,7 @@ def run_case(scn):
         if glog:
             bestg = min(float(e["v"]) for e in glog)
             if float(fin["v"]) > bestg:
-                viol.append({"mech": "refinement-worsened" if scn["refine"] else "result-worse-than-best-trial",
+                viol.append({"mech": "refinement-worsened" if refined_any else "result-worse-than-best-trial",
                              "reported": float(fin["v"]), "best_global": bestg})
             if scn["refine"] and float(fin["v"]) < bestg:
                 obs["refinement_improved"] = 1
@@ -71,7 +112,7 @@ def run_case(scn):
         if any(np.any(e["y"] == lo_a) or np.any(e["y"] == hi_a) for e in llog):
             obs["local_evals_clipped_to_boundary"] = 1
     for sol in t.solutions:
-        if sol.numberOfLocalTrials and not scn["refine"]:
+        if sol.numberOfLocalTrials and not refined_any:
             viol.append({"mech": "local-trials-without-refinement", "n": sol.numberOfLocalTrials})
     nt = (scn["refine"] and len(llog) >= 3) or len(glog) >= 5
     return {"violations": viol, "obs": obs, "nontrivial": nt,
@@ -83,7 +124,7 @@ def run_case(scn):
 def finalize(obs, tier, stats):
     if obs.get("local_evals", 0) < (2000 if tier == "quick" else 20000):
         return "only %d refinement evaluations observed" % obs.get("local_evals", 0), {}
-    miss = [k for k in ("refinement_improved", "result_on_boundary", "local_evals_clipped_to_boundary") if not obs.get(k)]
+    miss = [k for k in ("refinement_improved", "result_on_boundary", "local_evals_clipped_to_boundary", "second_refinements_after_more_trials") if not obs.get(k)]
     if miss:
         return "never observed: %s" % miss, {}
     return None, {}
